@@ -146,6 +146,7 @@ type Node struct {
 	Preamble       []byte   // nil = no preamble (first delimiter starts the body)
 	DelimPad       []string // transport padding written behind each delimiter line (len(Children)+1 entries, normally all "")
 	Epilogue       []byte   // nil = nothing after the close delimiter (not even CRLF)
+	NoClose        bool     // no close delimiter at all (Config.UnclosedNested): the enclosing multipart's next delimiter ends it
 	Delims         [][2]int // multipart: [start,end) of each delimiter line in tree.Bytes incl. the CRLF that precedes it (when there is one) and the CRLF that ends it (when there is one); last = close delimiter
 
 	Bytes, Header, Body   []byte
@@ -364,6 +365,10 @@ func (l *layout) emit(n *Node) {
 			l.buf.WriteString("--" + n.Boundary + n.pad(i) + "\r\n")
 			n.Delims = append(n.Delims, [2]int{ds, l.buf.Len()})
 			l.emit(c)
+		}
+
+		if n.NoClose {
+			break
 		}
 
 		ds := l.buf.Len()
